@@ -222,13 +222,13 @@ def check(run):
     lines = [j[2] for j in jobs]
     ia = tools.impl(lines)
     ma = tools.model(lines)
-    nbad = 0
+    nbad, corr = 0, []
     for l, a, m in zip(lines, ia, ma):
         if canon(a) != m:
             nbad += 1
             if nbad <= 4:
-                run.report("correspondence", write_replay_case("script", l if len(l) < 20000 else l[:20000]), {"impl": a[:2000], "model": m[:2000], "spec": "n/a"},
-                           broken="correspondence model/Concat.v vs src/concat/mod.rs: " + first_diff(canon(a), m), found_input=False)
+                corr.append(dict(case=write_replay_case("script", l if len(l) < 20000 else l[:20000]), observed={"impl": a[:2000], "model": m[:2000], "spec": "n/a"},
+                                 broken="correspondence model/Concat.v vs src/concat/mod.rs: " + first_diff(canon(a), m)))
     parsed = [parse_answer(a) for a in ia]
     dec = tools.impl(["DEC " + hx(p["out"]) for p in parsed])
     decg = tools.impl(["DECG " + hx(p["out"]) for p in parsed])
@@ -312,6 +312,10 @@ def check(run):
     run.cov["samples"] = [jobs[0][2][:300], jobs[len(jobs) // 2][2][:300], {"init": lists[-1][0], "members": [m["kind"] for m in lists[-1][1]]}]
     run.note("%d members in the pool, %d lists, %d runs, %d correspondence problems, %d violations, %d cells reached, %d unreached" %
              (len(pool), len(lists), len(lines), nbad, nviol, len(cells), len(unre)))
+    # a broken correspondence is reported on its own only when the search found no failing input
+    if corr and not any(v[2] for v in run.violations):
+        for c in corr:
+            run.report("correspondence", c["case"], c["observed"], broken=c["broken"], found_input=False)
     if not ok_proof and not run.violations:
         run.report("proof-obligation", {"stage": "proof"}, {"broken": broken}, broken="; ".join(b[:400] for b in broken), found_input=False)
 
